@@ -57,7 +57,7 @@ NBITS = 12
 
 def gen_cases(ctx):
     rng = ctx.rng
-    for i in range(ctx.scale(200, 4000)):
+    for i in range(ctx.scale(200, 12000)):
         inst = gen.gen_instance(rng, None, max_jobs=rng.choice([1, 2, 3, 5, 8]), max_machines=rng.choice([1, 2, 3, 4]))
         yield {"kind": "chart", "instance": inst, "seed": rng.randrange(2**31),
                "partial": rng.random() < 0.4, "xlim": rng.choice([None, None, "plus", "big"]),
@@ -74,10 +74,10 @@ def gen_cases(ctx):
                        "stamped": n > 12 or e != "function", "instance": {"cls": "animation"},
                        "video": ctx.tier == "thorough" and e == "function" and n in (11, 101, 150)}
             k += 1
-    for i in range(ctx.scale(12, 250)):
+    for i in range(ctx.scale(12, 750)):
         inst = gen.gen_instance(rng, None, max_jobs=3, max_machines=3, max_ops=10)
         yield {"kind": "animation_real", "instance": inst, "seed": rng.randrange(2**31)}
-    for i in range(ctx.scale(6, 100)):
+    for i in range(ctx.scale(6, 300)):
         yield {"kind": "animation_two_step", "length": rng.choice([5, 12, 30]),
                "entry": ["function", "creator"][i % 2], "seed": rng.randrange(2**31),
                "instance": {"cls": "animation"}}
